@@ -186,6 +186,7 @@ var All = map[string]func(*Ctx){
 	}),
 	"C17": seq(C17, (*Ctx).hasherPassThrough, (*Ctx).c19Whitelist, func(c *Ctx) {
 		c.storedListInPlace("C17.stored-list", nil)
+		c.lastCodeNotRecovery("C17.lastcode-not-recovery")
 	},
 		// what is mailed is assembled from this request's values only: the rules
 		// on shared state (C20), for the functions that build and send mail
